@@ -1,4 +1,5 @@
 import ESRVerif.Model.ToList
+import ESRVerif.Model.ToListSelect
 import ESRVerif.Driver.Util
 /-!
 Line protocol for the C18 model.
@@ -11,6 +12,13 @@ Line protocol for the C18 model.
 `tlisfloat label`              → `1`/`0`        (`generator.is_float`)
 `tleval B0 B1 B2 X A0 A1 A2 A3 label…` → bit pattern of `evalLabels` over `Float` | `err`
     (X, A0.. = 64-bit patterns of x, a0..a3; arities from `labelArity B (canon label)`; ties `opSem` to the oracle)
+`tlselect B0 B1 B2 AE CK CAND | CAND | …` → `ok <idx> <complexity> <c> <ib> label…` | `err <c> <ib>`
+    (`string_to_node`: AE = allow_eval, CK = check_ops (0/1); CAND = `none` (the parse raised) or the NODE tokens of the
+    candidate tree, in index order; `<c>` = the counts before masking, comma-separated, `n` = NaN; `<ib>` = all_in_basis
+    as 0/1 digits; `err` = ValueError of np.nanargmin)
+`tlapi FN RF B0 B1 B2 CAND | CAND | …` → `ok label…` | `err`
+    (the label list `fit_from_string` / `string_to_aifeyn` hand on: `string_to_node` with the flags of call site FN
+    (`ESR.Gen.ToList.callSites`), `to_list`, relabelling with RF = replace_floats and the default `maxvar`)
 -/
 namespace ESR.Driver.ToList
 open ESR ESR.Driver ESR.ToList
@@ -104,6 +112,26 @@ def floatSem : Sem Float :=
     lit := litFloat,
     const := fun _ => 0.0 / 0.0 }
 
+/-- split the token list at `|` -/
+def splitBar : List String → List (List String)
+  | [] => [[]]
+  | t :: ts =>
+    match splitBar ts with
+    | [] => [[t]]
+    | g :: gs => if t == "|" then [] :: g :: gs else (t :: g) :: gs
+
+/-- `none` (token list malformed) | `some none` (the parse raised) | `some (some e)` -/
+def parseCand (toks : List String) : Option (Option SymExpr) :=
+  if toks == ["none"] then some none
+  else match parseExpr toks with
+    | some (e, []) => some (some e)
+    | _ => none
+
+def fmtCounts (c : List (Option Nat)) : String :=
+  ",".intercalate (c.map fun x => match x with | some n => toString n | none => "n")
+
+def fmtBits (b : List Bool) : String := String.ofList (b.map fun x => if x then '1' else '0')
+
 def bitsToFloat (s : String) : Option Float := s.toNat?.map fun n => Float.ofBits n.toUInt64
 
 def handle : Handler
@@ -138,6 +166,32 @@ def handle : Handler
         | some v => some (toString v.toBits.toNat)
         | none => some "err"
   | ["tlisfloat", s] => some (if isFloatLabel s then "1" else "0")
+  | "tlselect" :: b0 :: b1 :: b2 :: ae :: ck :: toks => do
+      let B : Labeling.Basis := ⟨strList b0, strList b1, strList b2⟩
+      match (splitBar toks).mapM parseCand with
+      | none => some "bad-tree"
+      | some es =>
+        let ae := ae == "1"
+        let ck := ck == "1"
+        let tail := [fmtCounts (rawCounts B ae es), fmtBits (allInBasis B ae ck es)]
+        match select B ae ck es with
+        | none => some (joinSp ("err" :: tail))
+        | some r =>
+          match r.labels B with
+          | some l => some (joinSp (["ok", toString r.idx, toString r.complexity] ++ tail ++ l))
+          | none => some (joinSp ("no-labels" :: tail))
+  | "tlapi" :: fn :: rf :: b0 :: b1 :: b2 :: toks => do
+      let B : Labeling.Basis := ⟨strList b0, strList b1, strList b2⟩
+      match ESR.Gen.ToList.callSites.find? (fun cs => cs.fn == fn), (splitBar toks).mapM parseCand with
+      | some cs, some es =>
+        match (select B cs.allowEval cs.checkOps es).bind (fun r => r.labels B) with
+        | none => some "err"
+        | some raw =>
+          match relabel B (rf == "1") ESR.Gen.ToList.maxvarDefault raw with
+          | some l => some (joinSp ("ok" :: l))
+          | none => some "err"
+      | none, _ => some "bad-call-site"
+      | _, none => some "bad-tree"
   | _ => none
 
 end ESR.Driver.ToList
